@@ -249,6 +249,11 @@ func applyAlias(node *CandidateNode, alias *CandidateNode, aliasIndex int, newCo
 	if alias.Kind != MappingNode {
 		return fmt.Errorf("merge anchor only supports maps, got %v instead", alias.Tag)
 	}
+	for ancestor := node; ancestor != nil; ancestor = ancestor.Parent {
+		if ancestor == alias {
+			return fmt.Errorf("a merge anchor refers to a map that contains it")
+		}
+	}
 	for index := 0; index < len(alias.Content); index = index + 2 {
 		keyNode := alias.Content[index]
 		log.Debugf("applying alias key %v", keyNode.Value)
